@@ -598,11 +598,35 @@ class Exec:
                     self.sqrt_cache[k] = s
                     self.sqrt_args = getattr(self, "sqrt_args", []) + [a]
                 return self.sqrt_cache[k]
+            if name == "acos":
+                # theta = acos(a): cos(theta) = a, sin(theta) >= 0 (theta in [0, pi]); defined for |a| <= 1 (assumed)
+                a = z3.simplify(a)
+                ck = ("acos", a.get_id())
+                if ck not in self.trig:
+                    th = self.new("acos", z3.RealSort())
+                    s_, c_ = self.new("sin", z3.RealSort()), self.new("cos", z3.RealSort())
+                    self.side.append(z3.And(s_ * s_ + c_ * c_ == 1, c_ == a, s_ >= 0, th >= 0))
+                    # acos is a function: equal arguments, equal angles
+                    for (a2, th2) in getattr(self, "acos_apps", []):
+                        self.side.append(z3.Implies(a == a2, th == th2))
+                    self.acos_apps = getattr(self, "acos_apps", []) + [(a, th)]
+                    self.trig[th.get_id()] = (s_, c_, th)
+                    self.trig[ck] = th
+                    self.assumptions.add("acos(x): an angle theta >= 0 with cos(theta) = x and sin(theta) >= 0; |x| <= 1 assumed")
+                return self.trig[ck]
             if name in ("sin", "cos"):
+                a = z3.simplify(a)
+                if z3.is_rational_value(a) and a.numerator_as_long() == 0:
+                    return z3.RealVal(0 if name == "sin" else 1)
                 k = a.get_id()
                 if k not in self.trig:
                     s_, c_ = self.new("sin", z3.RealSort()), self.new("cos", z3.RealSort())
                     self.side.append(s_ * s_ + c_ * c_ == 1)
+                    # sin/cos are functions: equal angles, equal values; the angle 0
+                    self.side.append(z3.Implies(a == 0, z3.And(s_ == 0, c_ == 1)))
+                    for v in list(self.trig.values()):
+                        if isinstance(v, tuple):
+                            self.side.append(z3.Implies(a == v[2], z3.And(s_ == v[0], c_ == v[1])))
                     self.trig[k] = (s_, c_, a)
                 return self.trig[k][0 if name == "sin" else 1]
             raise Inconclusive("real function " + name)
